@@ -54,6 +54,8 @@ def guard_trees(func, blocks, b, skip_loops=True):
     """Guard context of block b inside a region as [(atom tree, truth)] (negations stripped)."""
     out = []
     doms = func.dominators().get(b, set())
+    if blocks >= set(func.blocks):
+        out += _disjunction_facts(func, b, doms)
     for d in sorted(doms & blocks, reverse=True):
         if d == b:
             continue
@@ -82,6 +84,45 @@ def guard_trees(func, blocks, b, skip_loops=True):
             ce, pol = strip_not(atom)
             side = (tv == pol)
             out.append((ce, side))
+    return out
+
+
+def _disjunction_facts(func, b, doms):
+    """Disjunctive conjuncts of if-conditions that hold at block b.  The then-block T of `if (C)` is entered from
+    several blocks when C contains `||` (each operand that short-circuits to true, and the final decision), so no
+    single dominating branch carries the fact; but if T is entered *only* from blocks of C's own evaluation - the
+    statement's block and `||`-operand blocks of C whose true edge goes to T - then C holds at T.  Returned are the
+    top-level conjuncts of C that are disjunctions (the other conjuncts are found by the ordinary dominator walk)."""
+    out = []
+    for ib, blk in func.blocks.items():
+        t = blk.get('term') or {}
+        if t.get('c') != 'IfStmt' or len(blk['succ']) != 2 or t.get('cond') is None or t.get('vshape'):
+            continue
+        T = blk['succ'][0]
+        if not (T == b or T in doms) or T == blk['succ'][1]:
+            continue
+        full = show(t['cond'], 4000)
+        ok = True
+        for p in func.preds.get(T, []):
+            if p == ib:
+                continue
+            pb = func.blocks[p]
+            pt = pb.get('term') or {}
+            if not (pt.get('c') == 'BinaryOperator' and pt.get('op') == '||' and len(pb['succ']) == 2 and pb['succ'][0] == T and
+                    pt.get('cond') is not None and show(pt['cond'], 4000) in full):
+                ok = False
+                break
+        if not ok:
+            continue
+        todo = [t['cond']]
+        while todo:
+            a = todo.pop()
+            while isinstance(a, dict) and a.get('k') == 'cast' and a.get('imp'):
+                a = a.get('e')
+            if isinstance(a, dict) and a.get('k') == 'bin' and a.get('op') == '&&':
+                todo += [a.get('r'), a.get('l')]
+            elif isinstance(a, dict) and a.get('k') == 'bin' and a.get('op') == '||':
+                out.append((a, True))
     return out
 
 
